@@ -63,6 +63,12 @@ def build(v, dm=None):
     return v
 
 
+def _root(a):
+    while isinstance(a.base, np.ndarray):
+        a = a.base
+    return a
+
+
 class ArrP:
     """proxy of a real ndarray with the ghost attribute names of the `arr` record"""
     __slots__ = ('a', 'inputs')
@@ -75,6 +81,16 @@ class ArrP:
     cols = property(lambda s: 1 if s.a.ndim == 1 else (s.a.shape[1] if s.a.ndim == 2 else 0))
     dtype = property(lambda s: s.a.dtype)
     writeable = property(lambda s: bool(s.a.flags.writeable))
+    # ghost buffer identity / column offset of a view: data pointer of the root buffer and offset in columns
+    src = property(lambda s: _root(s.a).__array_interface__['data'][0])
+
+    @property
+    def off(self):
+        r = _root(self.a)
+        if self.a.ndim == 0 or r.ndim < 2 or self.a.strides[-1 if self.a.ndim == 2 else 0] == 0:
+            return 0
+        delta = self.a.__array_interface__['data'][0] - r.__array_interface__['data'][0]
+        return (delta % r.strides[0]) // r.strides[1] if r.strides[0] else 0
     shape = property(lambda s: s.a.shape)
 
     @property
